@@ -33,6 +33,7 @@ __CPROVER_ensures((SUB_IS_C0(ctx) && ((g_nt > 0 && g_t0->len == 0) || (g_nt > 1 
  *   prefix of the body) and the context can take it; a full queue loses exactly
  *   one message: the oldest if prefer_new, otherwise the new one is not enqueued.
  * The delivered message has the arriving body (ghost index g_k / byte g_b).  */
+#define SUB_POLL_INV (g_pollr == (g_s->master.lmq.lmq_len > 0))
 #define SB_M   (g_pp->aio_recv.a_msg)
 #define SB_C0  (&g_s->master)
 #define SB_LEN OLD(SB_M->m_body.ch_len)
@@ -62,24 +63,33 @@ __CPROVER_assigns(VP_PROTO_GHOST_LIST)
 __CPROVER_ensures(VP_NO_LOCK_HELD)
 __CPROVER_ensures(g_pipe_close_calls == OLD(g_pipe_close_calls) + 1 && g_pipe_close_last == g_pp->pipe && g_fin_calls == OLD(g_fin_calls) && g_pipe_recv_calls == OLD(g_pipe_recv_calls) && SB_C0->lmq.lmq_len == OLD(SB_C0->lmq.lmq_len) && g_qa.n == OLD(g_qa.n) && g_qb.n == OLD(g_qb.n))
 ;
-#elif SUB_NC == 1
+#else
+/* ---- shared clauses, per context c with wait queue Q ---- */
+#define SB_CTX_REQUIRES(c, Q) SUB_CTX_PRE(c, Q)
+#define SB_CTX_ASSIGNS(c, Q)                                                                           \
+__CPROVER_assigns((c)->lmq.lmq_put, (c)->lmq.lmq_get, (c)->lmq.lmq_len, __CPROVER_object_whole((c)->lmq.lmq_msgs)) \
+__CPROVER_assigns((c)->lmq.lmq_len > 0: *LMQ_VIEW(&(c)->lmq, 0))                                        \
+__CPROVER_assigns((Q).n > 0: (Q).head->a_msg, (Q).head->a_result, (Q).head->a_count)                    \
+__CPROVER_frees((c)->lmq.lmq_len > 0: LMQ_VIEW(&(c)->lmq, 0), LMQ_VIEW(&(c)->lmq, 0)->m_body.ch_buf)
+/* the oldest message of c was released exactly once (last reference: freed) */
+#define SB_OLDEST_RELEASED(c)                                                                          \
+	((OLD(LMQ_VIEW(&(c)->lmq, 0)->m_refcnt.v) == 1) ? __CPROVER_was_freed(OLD(LMQ_VIEW(&(c)->lmq, 0)))  \
+	    : (!__CPROVER_was_freed(OLD(LMQ_VIEW(&(c)->lmq, 0))) && OLD(LMQ_VIEW(&(c)->lmq, 0))->m_refcnt.v == OLD(LMQ_VIEW(&(c)->lmq, 0)->m_refcnt.v) - 1))
+#if SUB_NC == 1
 /* case B: one context (the socket itself) */
 static void sub0_recv_cb(void *arg)
 __CPROVER_requires(arg == g_pp && VP_NO_LOCK_HELD && g_nc == 1 && g_s->num_contexts == 1)
 __CPROVER_requires(g_pp->aio_recv.a_result == 0 && SUB_WIRE_MSG(SB_M) && CH_GHOST_PRE(&SB_M->m_body))
-__CPROVER_requires(SUB_CTX_PRE(SB_C0, g_qa))
+__CPROVER_requires(SB_CTX_REQUIRES(SB_C0, g_qa) && SUB_POLL_INV)
 __CPROVER_requires(VP_AIOQS_PRE && g_qb.n == 0 && VP_AIO_NOT_QUEUED(&g_pp->aio_recv))
 /* ghost equation: g_m0 is the ORACLE value for the arriving body under the context's current topics */
 __CPROVER_requires(g_m0 == vp_sub_oracle(g_nt, g_t0, g_t1, g_t2, SB_M->m_body.ch_ptr, SB_M->m_body.ch_len))
 __CPROVER_assigns(g_pp->aio_recv.a_msg, *SB_M, VP_PROTO_GHOST_LIST, VP_SYNC_GHOSTS, g_free_calls, g_alloc_ok, g_alloc_fail, g_cl, g_cl_ran,
     __CPROVER_object_whole(g_cl_fin_aio), __CPROVER_object_whole(g_cl_fin_msg), __CPROVER_object_whole(g_cl_fin_rv), __CPROVER_object_whole(g_cl_fin_count))
-__CPROVER_assigns(SB_C0->lmq.lmq_put, SB_C0->lmq.lmq_get, SB_C0->lmq.lmq_len, __CPROVER_object_whole(SB_C0->lmq.lmq_msgs))
-__CPROVER_assigns(SB_C0->lmq.lmq_len > 0: *LMQ_VIEW(&SB_C0->lmq, 0))
-__CPROVER_assigns(g_qa.n > 0: g_qa.head->a_msg, g_qa.head->a_result, g_qa.head->a_count)
+SB_CTX_ASSIGNS(SB_C0, g_qa)
 __CPROVER_frees(SB_M, SB_M->m_body.ch_buf)
-__CPROVER_frees(SB_C0->lmq.lmq_len > 0: LMQ_VIEW(&SB_C0->lmq, 0), LMQ_VIEW(&SB_C0->lmq, 0)->m_body.ch_buf)
 __CPROVER_ensures(VP_NO_LOCK_HELD && VP_AIOQS_OK && LMQ_WF_SCALAR(&SB_C0->lmq))
-/* the next receive is armed, the peer stays connected, at most one completion */
+/* the next receive is armed, the peer stays connected */
 __CPROVER_ensures(g_pipe_recv_calls == OLD(g_pipe_recv_calls) + 1 && g_pipe_recv_pipe == g_pp->pipe && g_pipe_recv_aio == &g_pp->aio_recv && g_pp->aio_recv.a_msg == NULL && g_pipe_close_calls == OLD(g_pipe_close_calls))
 /* NOT taken (no matching subscription, or queue full and prefer_new off): context untouched, message released */
 __CPROVER_ensures(!SB_TAKES(SB_C0, g_m0) ==> (SB_CTX_SAME(SB_C0, g_qa) && g_fin_calls == OLD(g_fin_calls) && __CPROVER_was_freed(OLD(SB_M)) && g_pollr == OLD(g_pollr)))
@@ -89,18 +99,63 @@ __CPROVER_ensures((SB_TAKES(SB_C0, g_m0) && g_k < SB_LEN) ==> OLD(SB_M)->m_body.
 /* a receiver is waiting: the first one gets it, once */
 __CPROVER_ensures((SB_TAKES(SB_C0, g_m0) && OLD(g_qa.n) > 0) ==> (g_fin_calls == OLD(g_fin_calls) + 1 && g_fin_last == OLD(g_qa.head) && g_fin_last_rv == 0 && g_fin_last_count == SB_LEN && g_fin_last_msg == OLD(SB_M) && g_qa.n == OLD(g_qa.n) - 1 && SB_C0->lmq.lmq_len == OLD(SB_C0->lmq.lmq_len)))
 /* room in the queue: appended, socket readable */
-__CPROVER_ensures((SB_TAKES(SB_C0, g_m0) && OLD(g_qa.n) == 0 && !SUB_FULL_OLD(SB_C0)) ==> (SB_CTX_APPENDED(SB_C0, g_qa, OLD(SB_M)) && g_fin_calls == OLD(g_fin_calls) && g_pollr))
+__CPROVER_ensures((SB_TAKES(SB_C0, g_m0) && OLD(g_qa.n) == 0 && !SUB_FULL_OLD(SB_C0)) ==> (SB_CTX_APPENDED(SB_C0, g_qa, OLD(SB_M)) && g_fin_calls == OLD(g_fin_calls)))
 /* queue full, prefer_new: exactly one message leaves - the oldest */
-__CPROVER_ensures((SB_TAKES(SB_C0, g_m0) && OLD(g_qa.n) == 0 && SUB_FULL_OLD(SB_C0)) ==> (SB_CTX_ROTATED(SB_C0, g_qa, OLD(SB_M)) && g_fin_calls == OLD(g_fin_calls) && g_pollr))
-__CPROVER_ensures((SB_TAKES(SB_C0, g_m0) && OLD(g_qa.n) == 0 && SUB_FULL_OLD(SB_C0) && OLD(LMQ_VIEW(&SB_C0->lmq, 0)->m_refcnt.v) == 1) ==> __CPROVER_was_freed(OLD(LMQ_VIEW(&SB_C0->lmq, 0))))
-__CPROVER_ensures((SB_TAKES(SB_C0, g_m0) && OLD(g_qa.n) == 0 && SUB_FULL_OLD(SB_C0) && OLD(LMQ_VIEW(&SB_C0->lmq, 0)->m_refcnt.v) > 1) ==> (!__CPROVER_was_freed(OLD(LMQ_VIEW(&SB_C0->lmq, 0))) && OLD(LMQ_VIEW(&SB_C0->lmq, 0))->m_refcnt.v == OLD(LMQ_VIEW(&SB_C0->lmq, 0)->m_refcnt.v) - 1))
+__CPROVER_ensures((SB_TAKES(SB_C0, g_m0) && OLD(g_qa.n) == 0 && SUB_FULL_OLD(SB_C0)) ==> (SB_CTX_ROTATED(SB_C0, g_qa, OLD(SB_M)) && g_fin_calls == OLD(g_fin_calls) && SB_OLDEST_RELEASED(SB_C0)))
+/* C15: the receive descriptor mirrors "socket queue non-empty" */
+__CPROVER_ensures(SUB_POLL_INV)
 ;
+#else
+/* case C: two contexts (the socket's own and one more); each gets its OWN copy
+ * of the message iff ITS topics match - unless the allocation of that copy fails */
+#define SB_C1 g_c1
+/* D is a private copy of the arriving message */
+#define SB_COPY_OK(D)                                                                                  \
+	((D) != OLD(SB_M) && (D)->m_refcnt.v == 1 && (D)->m_header_len == 0 && (D)->m_pipe == g_pipe_id &&  \
+	    (D)->m_body.ch_len == SB_LEN && (g_k >= SB_LEN || (D)->m_body.ch_ptr[g_k] == g_b))
+#define SB_C0_DONE (g_qa.n + 1 == OLD(g_qa.n))
+#define SB_C1_DONE (g_qb.n + 1 == OLD(g_qb.n))
+#define SB_SLOT1 (SB_C0_DONE ? 1 : 0)
+/* outcome for context c (queue Q, oracle value M, completion slot S) */
+#define SB_CTX_OUTCOME(c, Q, M, S)                                                                     \
+	(!SB_TAKES(c, M) ? SB_CTX_SAME(c, Q)                                                               \
+	    : ((g_alloc_fail > OLD(g_alloc_fail) && SB_CTX_SAME(c, Q)) ||                                  \
+	          (OLD((Q).n) > 0 ? ((Q).n == OLD((Q).n) - 1 && (c)->lmq.lmq_len == OLD((c)->lmq.lmq_len) && \
+	                                g_cl_fin_aio[S] == OLD((Q).head) && g_cl_fin_rv[S] == 0 &&          \
+	                                g_cl_fin_count[S] == SB_LEN && SB_COPY_OK(g_cl_fin_msg[S]))         \
+	              : (!SUB_FULL_OLD(c) ? (SB_CTX_APPENDED(c, Q, LMQ_VIEW(&(c)->lmq, (c)->lmq.lmq_len - 1)) && SB_COPY_OK(LMQ_VIEW(&(c)->lmq, (c)->lmq.lmq_len - 1))) \
+	                                  : (SB_CTX_ROTATED(c, Q, LMQ_VIEW(&(c)->lmq, (c)->lmq.lmq_len - 1)) && SB_COPY_OK(LMQ_VIEW(&(c)->lmq, (c)->lmq.lmq_len - 1)) && SB_OLDEST_RELEASED(c))))))
+static void sub0_recv_cb(void *arg)
+__CPROVER_requires(arg == g_pp && VP_NO_LOCK_HELD && g_nc == 2 && g_s->num_contexts == 2)
+__CPROVER_requires(g_pp->aio_recv.a_result == 0 && SUB_WIRE_MSG(SB_M) && CH_GHOST_PRE(&SB_M->m_body))
+__CPROVER_requires(SB_CTX_REQUIRES(SB_C0, g_qa) && SB_CTX_REQUIRES(SB_C1, g_qb) && SUB_POLL_INV)
+__CPROVER_requires(VP_AIOQS_PRE && VP_AIO_NOT_QUEUED(&g_pp->aio_recv))
+/* ghost equations: ORACLE value of the arriving body under EACH context's own topics */
+__CPROVER_requires(g_m0 == vp_sub_oracle(g_nt, g_t0, g_t1, g_t2, SB_M->m_body.ch_ptr, SB_M->m_body.ch_len))
+__CPROVER_requires(g_m1 == vp_sub_oracle(g_nu, g_u0, g_u1, g_u2, SB_M->m_body.ch_ptr, SB_M->m_body.ch_len))
+__CPROVER_assigns(g_pp->aio_recv.a_msg, *SB_M, VP_PROTO_GHOST_LIST, VP_SYNC_GHOSTS, g_free_calls, g_alloc_ok, g_alloc_fail, g_cl, g_cl_ran,
+    __CPROVER_object_whole(g_cl_fin_aio), __CPROVER_object_whole(g_cl_fin_msg), __CPROVER_object_whole(g_cl_fin_rv), __CPROVER_object_whole(g_cl_fin_count))
+SB_CTX_ASSIGNS(SB_C0, g_qa)
+SB_CTX_ASSIGNS(SB_C1, g_qb)
+__CPROVER_frees(SB_M, SB_M->m_body.ch_buf)
+__CPROVER_ensures(VP_NO_LOCK_HELD && VP_AIOQS_OK && LMQ_WF_SCALAR(&SB_C0->lmq) && LMQ_WF_SCALAR(&SB_C1->lmq))
+__CPROVER_ensures(g_pipe_recv_calls == OLD(g_pipe_recv_calls) + 1 && g_pipe_recv_pipe == g_pp->pipe && g_pipe_recv_aio == &g_pp->aio_recv && g_pp->aio_recv.a_msg == NULL && g_pipe_close_calls == OLD(g_pipe_close_calls))
+/* the arriving message itself is always released (every taker got a copy) */
+__CPROVER_ensures(__CPROVER_was_freed(OLD(SB_M)))
+/* contexts filter independently */
+__CPROVER_ensures(SB_CTX_OUTCOME(SB_C0, g_qa, g_m0, 0))
+__CPROVER_ensures(SB_CTX_OUTCOME(SB_C1, g_qb, g_m1, SB_SLOT1))
+/* exactly the waiting receivers that were served are completed, after the lock is dropped */
+__CPROVER_ensures(g_fin_calls == OLD(g_fin_calls) + (SB_C0_DONE ? 1 : 0) + (SB_C1_DONE ? 1 : 0))
+/* C15 */
+__CPROVER_ensures(SUB_POLL_INV)
+;
+#endif
 #endif
 
 /* ---- C15: receive on a context (the socket's own receive is the master context) ----
  * never waits while a message is queued; waits (nni_aio_start) only when the
  * queue is empty; the poll flag of the socket mirrors "master queue non-empty". */
-#define SUB_POLL_INV (g_pollr == (g_s->master.lmq.lmq_len > 0))
 #define SR_C   ((sub0_ctx *) arg)
 #define SR_Q   (*(SUB_IS_C0(SR_C) ? &g_qa : &g_qb))
 #define SR_V0  LMQ_VIEW(&SR_C->lmq, 0)
